@@ -20,6 +20,10 @@ type HevcCache struct {
 	vps      *rtp.Packet // 视频参数集包
 	sps      *rtp.Packet // 序列参数集包
 	pps      *rtp.Packet // 图像参数集包
+	vpsAt    uint64      // arrival order of vps / sps / pps, to replay them oldest first
+	spsAt    uint64
+	ppsAt    uint64
+	arrivals uint64
 	hasKey   bool        // a key picture has been seen
 	keyTS    uint32      // RTP timestamp of the most recent key picture
 }
@@ -45,19 +49,19 @@ func (cache *HevcCache) CachePack(pack Pack) bool {
 	cache.l.Lock()
 	defer cache.l.Unlock()
 
-	if vps { // 视频参数
-		cache.vps = rtppack
-		return false
+	// 一个包可能同时携带 VPS、SPS、PPS 甚至关键帧（AP）：
+	// remember it for every parameter set it carries, and go on to the GOP handling
+	if vps {
+		cache.arrivals++
+		cache.vps, cache.vpsAt = rtppack, cache.arrivals
 	}
-
-	if sps { // 序列头参数
-		cache.sps = rtppack
-		return false
+	if sps {
+		cache.arrivals++
+		cache.sps, cache.spsAt = rtppack, cache.arrivals
 	}
-
-	if pps { // 图像参数
-		cache.pps = rtppack
-		return false
+	if pps {
+		cache.arrivals++
+		cache.pps, cache.ppsAt = rtppack, cache.arrivals
 	}
 
 	// 一个关键帧可能由多个 slice/分包组成（同一 RTP 时间戳）：
@@ -99,25 +103,31 @@ func (cache *HevcCache) PushTo(q *queue.SyncQueue) int {
 	cache.l.RLock()
 	defer cache.l.RUnlock()
 
-	// 写参数包
-	if cache.vps != nil {
-		q.Queue().Push(cache.vps)
-		bytes += cache.vps.Size()
+	var packs []queue.Elem
+	if cache.cacheGop {
+		packs = cache.gop.Elems()
 	}
 
-	if cache.sps != nil {
-		q.Queue().Push(cache.sps)
-		bytes += cache.sps.Size()
+	// 写参数包: oldest first, each once; one that is part of the cached GOP is
+	// replayed there, in its place
+	ps := []*rtp.Packet{cache.vps, cache.sps, cache.pps}
+	at := []uint64{cache.vpsAt, cache.spsAt, cache.ppsAt}
+	for i := 1; i < len(ps); i++ {
+		for j := i; j > 0 && at[j] < at[j-1]; j-- {
+			ps[j], ps[j-1] = ps[j-1], ps[j]
+			at[j], at[j-1] = at[j-1], at[j]
+		}
 	}
-
-	if cache.pps != nil {
-		q.Queue().Push(cache.pps)
-		bytes += cache.pps.Size()
+	for i, p := range ps {
+		if p == nil || inPacks(packs, p) || (i > 0 && p == ps[i-1]) || (i > 1 && p == ps[i-2]) {
+			continue
+		}
+		q.Queue().Push(p)
+		bytes += p.Size()
 	}
 
 	// 如果必要，写 GopCache
 	if cache.cacheGop {
-		packs := cache.gop.Elems()
 		q.Queue().PushN(packs) // 启动阶段调用，无需加锁
 		for _, p := range packs {
 			bytes += p.(Pack).Size()
